@@ -1,11 +1,25 @@
-"""C20 -- see props/driver.py"""
-import driver
+"""C20 -- option combinations are rejected cleanly or run without UB; statistics are well defined (see props/driver.py, C17.split)."""
+import driver, C17, C18
 
-EXPLANATION = "Statistics/UB part of C20 on the driver: every source assert and every vector subscript of solve() holds, no local is read before it is written (definedness ghosts), throw statements are unreachable for validated option values, exactError getters call back() only on a non-empty history and report a value iff one was recorded. Parser/enum validation, setup() rejection paths and kernel memory safety are covered by the other checks' bounds/assert obligations (C03-C08, C14, C17) or not decided (cmdline parser, anisotropic division)."
+EXPLANATION = ("Decided parts of C20: (driver, Layer T) every source assert and vector subscript of solve() holds, no local is read before it is "
+               "written, throw statements are unreachable for validated option values, the exactError getters call back() only on a non-empty "
+               "history and report a value iff one was recorded; (grid split) the automatic circle/radial split guarantees what every smoother "
+               "asserts (>= 2 circles, >= 3 radial nodes, >= 3 circles when nr > 5) for every nr >= 3 (loop contract, unbounded) -- known finding F13 "
+               "for nr == 2 is reported under C17; (levels) chooseNumberOfLevels rejects exactly the grids without a two-level hierarchy "
+               "(C18 job). Memory safety of the numerical kernels is part of the per-kernel checks (bounds / source-assert obligations of "
+               "C03-C08, C14). NOT decided: command-line parser and enum validation (cmdline.h / parser.cpp: C++ library code outside the "
+               "extractor), setup() rejection of the take strategy without caches, anisotropic grid division, finiteness of the solution.")
 
 
 def run(tier, seed, work):
-    return driver.run_property("C20", tier, seed, work, ("converged", "getters", "solve"), EXPLANATION)
+    import vlib
+    rep = vlib.Report("C20", tier, seed)
+    jobs = driver.build_jobs(which=("converged", "getters", "solve")) + [C17.split_job(nt) for nt in (4, 8, 12)] + C18.build_jobs(tier, seed)
+    vlib.run_jobs(jobs, work)
+    rep.absorb(jobs, keep=driver.absorb_filter("C20"))
+    rep.extraction = {"rules_fired": jobs[0].rules.summary(), "body_sha256_16": {k: v for j in jobs for k, v in j.hashes.items()}, "dropped": driver.DROPPED}
+    rep.trusted, rep.assumptions = driver.TRUSTED, driver.ASSUMED
+    return rep.finish("other", EXPLANATION, "goto-cc; goto-instrument --unwindset/--apply-loop-contracts; cbmc --unwind N --unwinding-assertions")
 
 
 def replay(path):
